@@ -6,7 +6,7 @@
    with explicit premises; an invariant is then proved by a dozen small cases (one per move) instead of a walk
    through sl_frame.
 
-   Tracked components ("core"): sc_strms sc_gone sc_open sc_ring sc_lastID sc_closing sc_closeRef sc_expectCont
+   Tracked components ("core"): sc_strms sc_gone sc_open sc_ring sc_lastID sc_highestID sc_closing sc_closeRef sc_expectCont
    sc_readerQ sc_rl_done sc_sl_done sc_closer sc_wl_dead sc_now, and sc_out.
    Untracked (a `lite` move may change them at will): sc_initWin sc_oldest sc_clientWindow sc_currentWindow
    sc_enc sc_dec sc_discardID sc_discardPrev sc_discardFields.
@@ -41,7 +41,7 @@ Implicit Types c : sconn.
 
 Definition same_core (c c' : sconn) : Prop :=
   sc_strms c' = sc_strms c /\ sc_gone c' = sc_gone c /\ sc_open c' = sc_open c /\ sc_ring c' = sc_ring c /\
-  sc_lastID c' = sc_lastID c /\ sc_closing c' = sc_closing c /\ sc_closeRef c' = sc_closeRef c /\
+  sc_lastID c' = sc_lastID c /\ sc_highestID c' = sc_highestID c /\ sc_closing c' = sc_closing c /\ sc_closeRef c' = sc_closeRef c /\
   sc_expectCont c' = sc_expectCont c /\ sc_readerQ c' = sc_readerQ c /\ sc_rl_done c' = sc_rl_done c /\
   sc_sl_done c' = sc_sl_done c /\ sc_closer c' = sc_closer c /\ sc_wl_dead c' = sc_wl_dead c /\ sc_now c' = sc_now c.
 
@@ -66,6 +66,10 @@ Proof. intros [H _]. unfold same_core in H. tauto. Qed.
 Lemma lite_strms a b : lite a b -> sc_strms b = sc_strms a.
 Proof. intros [H _]. unfold same_core in H. tauto. Qed.
 Lemma lite_lastID a b : lite a b -> sc_lastID b = sc_lastID a.
+Proof. intros [H _]. unfold same_core in H. tauto. Qed.
+Lemma lite_highestID a b : lite a b -> sc_highestID b = sc_highestID a.
+Proof. intros [H _]. unfold same_core in H. tauto. Qed.
+Lemma lite_wl_dead a b : lite a b -> sc_wl_dead b = sc_wl_dead a.
 Proof. intros [H _]. unfold same_core in H. tauto. Qed.
 Lemma lite_closing a b : lite a b -> sc_closing b = sc_closing a.
 Proof. intros [H _]. unfold same_core in H. tauto. Qed.
@@ -92,6 +96,7 @@ Proof.
 Qed.
 
 End Core.
+Arguments same_core {hstate}. Arguments lite {hstate}.
 
 Ltac core_tac := unfold same_core; sc_cbn; repeat split; reflexivity.
 (* chain lite steps *)
@@ -177,38 +182,21 @@ Lemma lite_handle_frame c s fr : sc_sl_done c = false -> lite c (fst (fst (handl
 Proof.
   intro Hd. unfold handle_frame. destruct (verify_state s fr); [apply lite_refl|].
   pose proof (lite_handle_header_frame c s fr) as LH.
-  assert (HH : lite c (fst (fst
-    (if (3 <=? sstate_rank (st_state s)) && negb (continuing_headers s fr)
-     then (c, s, Some (EGoAway c_ProtocolError))
-     else
-      let '(c1, s1, e) := handle_header_frame dec_field cfg c s fr in
-      match e with
-      | Some e0 => (c1, s1, Some e0)
-      | None =>
-          if flag_has (sf_flags fr) FL_EH
-          then
-           let fin := match st_prev s1 with [] => true | _ :: _ => false end in
-           let s2 := set_headers_finished s1 fin in
-           if negb fin
-           then (c1, s2, Some (EGoAway c_ProtocolError))
-           else match validate_request_pseudo_headers s2 with
-                | Some e0 => (c1, s2, Some e0)
-                | None => (c1, s2, None)
-                end
-          else (c1, s1, None)
-      end)))).
-  { destruct (_ && _)%bool; [apply lite_refl|].
+  match goal with |- context [match sf_kind fr with KHeaders => ?X | _ => _ end] => set (hb := X) end.
+  assert (HH : lite c (fst (fst hb))).
+  { subst hb. destruct (_ && _)%bool; [apply lite_refl|].
     destruct (handle_header_frame dec_field cfg c s fr) as [[c1 s1] e]. cbn [fst] in LH.
     destruct e; [exact LH|]. destruct (flag_has (sf_flags fr) FL_EH); [|exact LH].
     cbv zeta. destruct (negb _); [exact LH|]. destruct (validate_request_pseudo_headers _); exact LH. }
+  clearbody hb.
   destruct (sf_kind fr); try apply lite_refl; try exact HH.
   - (* DATA *)
     destruct (negb _); [apply lite_refl|]. destruct (3 <=? _); [apply lite_refl|].
     destruct (_ && _)%bool; cbn [fst].
     + apply lite_credit_conn_window. exact Hd.
     + apply lite_consume_recv_window. exact Hd.
-  - destruct (sstate_eqb _ _); apply lite_refl.
   - destruct (_ && _)%bool; [apply lite_refl|]. destruct (_ =? _); apply lite_refl.
+  - destruct (sstate_eqb _ _); apply lite_refl.
   - destruct (sstate_eqb _ _); [apply lite_refl|]. destruct (_ =? _); [apply lite_refl|].
     destruct (_ <? _)%Z; apply lite_refl.
 Qed.
@@ -233,7 +221,7 @@ Proof.
     match goal with |- context [emit c0 ?o] => set (oo := o) end.
     assert (L1 : lite c0 (upd_clientWindow (emit c0 oo)
        (sc_clientWindow (emit c0 oo) - zmin (zmin (Z.of_N maxDataFrameSize) (zmin (sn_window n0) (sc_clientWindow c0))) (Z.of_N (len (sn_pending n0)))))).
-    { eapply lite_trans; [apply lite_emit; [exact I | exact H0] | apply lite_upd_clientWindow]. }
+    { eapply lite_trans; [apply (lite_emit _ c0 oo I H0) | apply lite_upd_clientWindow]. }
     destruct (_ && _)%bool; cbn [fst]; [exact L1|].
     eapply lite_trans; [exact L1|]. apply IH. sc_cbn. rewrite sc_sl_done_emit. exact H0. }
   destruct (sn_pending n) eqn:EP.
@@ -258,7 +246,7 @@ Proof.
   intro Hd. unfold finish_request. destruct (response_block enc_field (sc_enc c) r) as [blk e'].
   match goal with |- context [emit (upd_enc c e') ?o] => set (oo := o) end.
   assert (L1 : lite c (emit (upd_enc c e') oo)).
-  { eapply lite_trans; [apply lite_upd_enc | apply lite_emit; [exact I | exact Hd]]. }
+  { eapply lite_trans; [apply lite_upd_enc | apply (lite_emit _ (upd_enc c e') oo I Hd)]. }
   destruct (negb _); [exact L1|].
   eapply lite_trans; [exact L1 | apply lite_send_data]. rewrite sc_sl_done_emit. exact Hd.
 Qed.
